@@ -112,6 +112,7 @@ func writeEvidence(prop, tier string, seed int64, conf propConf, m *workerResult
 }
 
 var rules = map[string]string{
+	"C16": "each evaluation is one completion request (layout, configuration, typed line, cursor) on the real server; distinct by construction; non-trivial = the set of names starting with the fragment is neither empty nor the whole table (counted once per fragment, for the first configuration of its group)",
 	"C09": "each evaluation is one references request (plus one rename request when declarations are included) at one cursor position of one scenario on a fresh server; scenarios are distinct parameter vectors; non-trivial = at least two files hold occurrences, or the request comes from a non-root file, or an open file differs from disk",
 	"C17": "geometry: one evaluation = one document tokenised (full + every line-interval range request); histories: one evaluation = one BFS transition replayed on a fresh server pair; non-trivial = the document has a delimiter-carrying / single-character lexeme or a multi-unit character before a token, or the history contains a delta answered with edits",
 	"C08": "each evaluation is one document (all per-document features) or one (document, cursor position) pair (eight requests); distinct by construction; distinct_nontrivial counts the documents whose deviation puts a multi-byte / multi-unit character or a neighbouring entry before a reported range",
@@ -129,6 +130,7 @@ var rules = map[string]string{
 }
 
 var assumptions = map[string][]string{
+	"C16": {"'starts with' and 'matches' are case-insensitive, as the implementation's own matcher is"},
 	"C09": {"all documents are opened and their background analysis completed before the request (inline schedule)"},
 	"C17": {"the client applies SemanticTokensDelta edits to the array of its current result id only", "the rendered position map is the ground truth for lexeme extents"},
 	"C08": {"the rendered text's position map is the ground truth (nothing is parsed by the oracle)", "cursor positions 0..length of each line; positions inside a surrogate pair are not sent"},
